@@ -12,6 +12,7 @@ EXPL = ("Decides: SA-TAIL: the in-place normaliser stores the new length and cle
 
 def run(ctx):
     cfgs = ["rel"] if ctx.tier == "quick" else ["rel", "dbg", "strict", "unsafe", "nodef"]
+    ctx.progs(cfgs)  # build all configurations in parallel
     for c in cfgs:
         prog = ctx.prog(c)
         ctx.guard("C06", "tail", lambda: tail.normalize_in_place(ctx, prog))
